@@ -71,6 +71,19 @@ def run_lib(name, seed):
         H = fn(G, k, seed=seed)
         H = G if H is None else H
         return [H.number_of_vertices()] + sorted(H.edges())
+    def nxtext(directed):
+        import io
+        import networkx
+        if directed:
+            X = networkx.DiGraph([(1, 3), (2, 3), (3, 4)])
+            F = cnfgen.PebblingFormula(X)
+        else:
+            X = networkx.gnp_random_graph(6, .5, seed=int(seed) % 1000)
+            F = cnfgen.GraphColoringFormula(X, 3)
+        buf = io.StringIO()
+        F.to_file(buf, export_header=True, export_varnames=True)
+        return buf.getvalue().split("\n")
+
     gens = {
         "RandomKCNF": lambda: list(cnfgen.RandomKCNF(3, 8, 12, seed=seed).clauses()),
         "RandomKXOR": lambda: list(cnfgen.RandomKXOR(3, 8, 5, seed=seed).clauses()),
@@ -84,6 +97,9 @@ def run_lib(name, seed):
         "m_edges_dense": lambda: sorted(bipartite_random_m_edges(4, 4, 12, seed=seed).edges()),
         "bipartite_random": lambda: sorted(bipartite_random(5, 5, 0.5, seed=seed).edges()),
         "split_random_edges": lambda: inplace(split_random_edges, 3),
+        # formulas built from unnamed networkx graphs: header, names and clauses as written to a file
+        "networkx_input": lambda: nxtext(False),
+        "networkx_digraph_input": lambda: nxtext(True),
         "add_random_missing_edges": lambda: inplace(add_random_missing_edges, 4),
     }
     a = gens[name]()
